@@ -284,6 +284,23 @@ func roMenu() []roOp {
 			return s + fmt.Sprint(err)
 		}
 	})
+	add("batch encoders of 1100 shared elements in projective form (ElementsToBytes, BatchToBytesUncompressed, BatchMapToScalarField)", "C06 C07 C09 C11 C13 C19", func(c *ipa.IPAConfig, seed int64, g *roRegion) func() string {
+		vals := make([]banderwagon.Element, 1100)
+		for i := range vals {
+			vals[i] = reprOf(c.SRS[(i*11)%256], 1+i%3)
+		}
+		ptrs := roPtrEls(g, vals)
+		return func() string {
+			x := banderwagon.ElementsToBytes(ptrs...)
+			y := banderwagon.BatchToBytesUncompressed(ptrs...)
+			res := make([]*fr.Element, len(ptrs))
+			for i := range res {
+				res[i] = new(fr.Element)
+			}
+			err := banderwagon.BatchMapToScalarField(res, ptrs)
+			return fmt.Sprint(hx(x[0][:]), hx(x[1099][:]), hx(y[7][:8]), frToBig(*res[1099]).Text(16), err)
+		}
+	})
 	add("Element arithmetic with shared operands (Add, Sub, Double, Neg, ScalarMul, Set, AddMixed-free)", "C08 C09 C13", func(c *ipa.IPAConfig, seed int64, g *roRegion) func() string {
 		ptrs := roPtrEls(g, []banderwagon.Element{reprOf(c.SRS[3], reprProj), c.SRS[4]})
 		k := roFrs(g, []fr.Element{frFromBig(new(big.Int).Sub(bigR, bi(2)))})
